@@ -10,6 +10,8 @@ RULE = ('case = (hash type, ordered node list, membership history of add/remove 
         'sweep before the operation restricted to the unchanged nodes, (ii) for fresh rings with the reference ring '
         'in /verif/vlib/refs/ring.py, (iii) at the end with a freshly built router over the live destinations in '
         'configuration order; non-trivial = history with >=1 operation on >=2 nodes; distinct = distinct cases')
+RULE_MORE = (' Also: replicas colliding on the last ring positions, router-level history independence under REPLICATION_FACTOR 1-3 / DIVERSE_REPLICAS, and a manager mode (DYNAMIC_ROUTER sequences: every datapoint is handed to exactly the destinations the live router names).')
+RULE = RULE + RULE_MORE
 EXHAUSTIVE = {'quick': True, 'thorough': True}
 EXHAUSTIVE_OVER = ('ring positions 0..65535 per sweep; all toggle histories of length <=3 over 3-node lists '
                    '(quick: length <=2)')
